@@ -99,6 +99,7 @@ func init() {
 		if a.ok {
 			c.rulesC14(a, c.lockAnalysis())
 			c.rulesC14chk(a)
+			c.rulesR3own()
 		}
 	})
 }
@@ -251,6 +252,7 @@ func init() {
 	}, func(c *Ctx) {
 		c.rulesC20()
 		c.rulesC20deep()
+		c.rulesR3ask()
 	})
 }
 
